@@ -291,6 +291,42 @@ def main():
         chk.bounds.append('key-object invariant, one inductive step on toy curve %s from every valid key pair (d, Q): accessors Bytes/Scalar/PublicKey/'
                           'CompressedBytes/Point with every returned byte, scalar and point overwritten by arbitrary values; ECDH, Equal, '
                           'NewSchnorrPrivateKeyFromECDSA, NewSchnorrPublicKeyFromECDSA with the keys as operands' % (toys[0],))
+    # ---- every other routine that hands out a PublicKey object: the object it returns satisfies the key invariant (point != O, on the
+    # curve by construction of the toy group, cached encoding = encoding of the point).  RecoverPublicKey builds its key from a computed
+    # point (the only producer whose point can be the identity for well-formed arguments: s*R = e*G).
+    def t_producer_recover(toy, L):
+        def task(sub):
+            def h(ctx):
+                from .c07 import digest_bytes
+                m = mk(ctx, toy)
+                stubs.install_crypto_hash(m)
+                r, s, v = tm.var('r', W), tm.var('s', W), tm.var('v', 8)
+                ctx.assume(tm.ult(r, toy.n, W))
+                ctx.assume(tm.ult(s, toy.n, W))
+                e16, hb = digest_bytes(L)
+                key, err = m.call(SECEC + 'RecoverPublicKey', [m.new_byte_slice(hb, 'digest'), T.new_scalar(m, r), T.new_scalar(m, s), v])
+                sub.note_machine(m)
+                if err is not None:
+                    ctx.check(key.is_nil(), 'no-key-on-error')
+                    return 'err'
+                kq = m.toy_pget(T.fld(m, key, T.PUB_T, 'point'))
+                ctx.check(tm.bnot(tm.eq(kq, 0, W)), 'bv:returned-key-never-holds-the-point-at-infinity')
+                want = [4] + T.be32(toy.X(kq)) + T.be32(toy.Y(kq))
+                pb = m.slice_elems(T.fld(m, key, T.PUB_T, 'pointBytes'))
+                ctx.check(len(pb) == 65 and tm.eq(cat_bytes(pb), cat_bytes(want), 520), 'bv:cached-encoding=encoding-of-the-point')
+                enc = m.slice_elems(m.call(PKM + 'Bytes', [key]))
+                ctx.check(len(enc) == 65 and tm.eq(cat_bytes(enc), cat_bytes(want), 520), 'bv:Bytes()=encoding-of-the-point')
+                return 'ok'
+            lbl = 'toy(%d,%d)/producer/RecoverPublicKey@len%d' % (toy.p, toy.n, L)
+            paths = sub.explore(lbl, h, mode='bv', timeout=300)
+            sub.add(lbl + '/witness', [], {p.value for p in paths} == {'ok', 'err'})
+        return task
+    if not only or 'producers' in only:
+        for L in (32, 64):
+            tasks.append(('producers', t_producer_recover(T.get_toy(*toys[0]), L)))
+        chk.bounds.append('key objects returned by RecoverPublicKey on toy curve %s: all r,s in [0,n\'), all 256 recovery ids, all digests (leading 32 bytes < 2^16, lengths 32 and 64); '
+                          'SubjectPublicKeyInfo parsing as a producer is decided at full width by C12 (spki/*) over NewPublicKey, whose claims are the newpub/* obligations here' % (toys[0],))
+
     # contracts this check's toy layer uses for routines named in the property's own file list: re-decided here (see common.include_dependency)
     from .common import include_dependency
     if not only or 'dep' in only:
